@@ -52,7 +52,9 @@ From TS Require Import model.Barrier proofs.BarrierProofs proofs.BarrierInst.
 (* ASYNCHRONOUS take (background completion through the store barrier, model/Barrier.v; the barrier protocol is
    C13's subject and its skeleton is re-extracted from the source on every run): for every world size, every fault
    plan, every interleaving of the ranks' background threads and every history of snapshots with distinct barrier
-   prefixes - the metadata of a snapshot is written only after every rank's payload I/O completed successfully ... *)
+   prefixes - with arbitrarily many store.wait timeouts and any set of ranks absent from the protocol (both are part
+   of the barrier model) - the metadata of a snapshot is written only after every rank's payload I/O completed
+   successfully ... *)
 Theorem C02_async_metadata_last : forall st0 h sch i x,
   fresh st0 h -> distinct_prefixes h ->
   nth_error (g_insts (grun (ginit st0 h) sch)) i = Some x ->
